@@ -815,7 +815,7 @@ pub fn meta_c13b() -> Meta {
 
 // ===================================================================================== C17b
 
-const C17_TIMERS: [(i64, i64, i64, u32); 5] = [(10, 3, 4, 3), (4, 1, 2, 2), (20, 5, 2, 5), (6, 2, 9, 1), (3, 1, 5, 3)];
+const C17_TIMERS: [(i64, i64, i64, u32); 7] = [(10, 3, 4, 3), (4, 1, 2, 2), (20, 5, 2, 5), (6, 2, 9, 1), (3, 1, 5, 3), (1, 2, 2, 2), (2, 3, 1, 2)];
 const C17_ACTIONS: [Option<FaultHandlerAction>; 5] = [None, Some(FaultHandlerAction::Cancel), Some(FaultHandlerAction::Ignore), Some(FaultHandlerAction::Suspend), Some(FaultHandlerAction::Abandon)];
 
 /// scenario kinds that provoke each limit
@@ -919,12 +919,25 @@ pub fn c17_case(fam: &str, idx: usize, seed: u64) -> Option<Case> {
                 k.handlers.retain(|h| h.0 != Condition::NakLimitReached);
                 k.handlers.push((Condition::NakLimitReached, FaultHandlerAction::Ignore));
             }
+            // the inactivity limit is the other fault that is often ignored here, so that the sender, too, sees a
+            // second fault of a different kind
+            if rng.chance(1, 3) {
+                k.handlers.retain(|h| h.0 != Condition::InactivityDetected);
+                k.handlers.push((Condition::InactivityDetected, FaultHandlerAction::Ignore));
+            }
             let size = 128usize;
             let cont = content(&mut rng, size, 0, 32, 0xC17);
             let mut sc = two_party(&case, rng.next_u64(), &k, cont);
-            let kind = rng.usize(6);
+            let kind = rng.usize(7);
             let c = 1 + rng.usize(3);
             match kind {
+                6 => {
+                    // the sender hears one NAK after its EOF and then nothing: its inactivity timer and its (never
+                    // acknowledged) EOF timer both run
+                    sc.rules.push(Rule { from: 1, to: 0, m: Matcher::KindAll(Kind::AckEof), a: Action::Drop });
+                    sc.rules.push(Rule { from: 1, to: 0, m: Matcher::FromIdx(2), a: Action::Drop });
+                    sc.rules.push(Rule { from: 0, to: 1, m: Matcher::FdOffset(32 * (c as u64 - 1)), a: Action::Drop });
+                }
                 0 => sc.rules.push(Rule { from: 1, to: 0, m: Matcher::FromIdx(rng.usize(4)), a: Action::Drop }),
                 1 => sc.rules.push(Rule { from: 0, to: 1, m: Matcher::FromIdx(rng.usize(7)), a: Action::Drop }),
                 2 => sc.rules.push(Rule { from: 0, to: 1, m: Matcher::FdOffset(32 * (c as u64 - 1)), a: Action::Drop }),
@@ -979,6 +992,7 @@ pub fn judge_c17b(info: &Info, log: &RunLog, rep: &mut Report) {
             let action = k.handlers.iter().find(|h| h.0 == f.condition).map(|h| h.1.clone()).unwrap_or(FaultHandlerAction::Cancel);
             let key0 = format!("role={} cond={:?} cfg={} L={}", role, f.condition, k.shape(), l);
             // ---------------- timing
+            let mut retriggered = false;
             let (xs, answers, period, what): (Vec<u64>, Vec<u64>, u64, &str) = match (f.condition, ent == t.src) {
                 (Condition::PositiveLimitReached, true) => (emits.iter().filter(|e| e.3 == Kind::Eof).map(|e| e.1).collect(), arrs.iter().filter(|a| a.2 == Kind::AckEof).map(|a| a.1).collect(), k.ta as u64 * 1_000_000, "EOF"),
                 (Condition::PositiveLimitReached, false) => (emits.iter().filter(|e| e.3 == Kind::Finished).map(|e| e.1).collect(), arrs.iter().filter(|a| a.2 == Kind::AckFin).map(|a| a.1).collect(), k.ta as u64 * 1_000_000, "Finished"),
@@ -1011,6 +1025,14 @@ pub fn judge_c17b(info: &Info, log: &RunLog, rep: &mut Report) {
                             }
                         }
                     }
+                    // a duplicate EOF or a Prompt makes the receiver repeat its NAK at once and restart the timer
+                    // without an expiry: such a round is not a timer-driven retransmission
+                    let trig: Vec<u64> = arrs.iter().filter(|a| matches!(a.2, Kind::Eof | Kind::Prompt)).map(|a| a.1).collect();
+                    let run_now = unanswered_before(&rounds, &prog, *tf);
+                    let d_us = match k.nak {
+                        cfdp_core::daemon::NakProcedure::Immediate(x) | cfdp_core::daemon::NakProcedure::Deferred(x) => x.as_micros() as u64,
+                    };
+                    retriggered = run_now.iter().skip(1).any(|r| trig.iter().any(|x| *x <= *r && *r <= *x + d_us + 50_000));
                     (rounds, prog, k.tn as u64 * 1_000_000, "NAK")
                 }
                 (Condition::InactivityDetected, _) => {
@@ -1025,7 +1047,7 @@ pub fn judge_c17b(info: &Info, log: &RunLog, rep: &mut Report) {
                                 break;
                             }
                         }
-                        refs.extend(emits.iter().filter(|e| e.1 < *tf && (e.3 == Kind::Eof || (e.0 > first_pass_end && first_pass_end > 0 && matches!(e.3, Kind::FileData | Kind::Metadata)))).map(|e| e.1));
+                        refs.extend(emits.iter().filter(|e| e.1 < *tf && ((e.3 == Kind::Eof && t.mode != ack()) || (e.0 > first_pass_end && first_pass_end > 0 && matches!(e.3, Kind::FileData | Kind::Metadata)))).map(|e| e.1));
                     } else {
                         refs.push(d.spans(id, TaskKind::Recv).first().map(|s| s.start_us).unwrap_or(0));
                     }
@@ -1046,7 +1068,16 @@ pub fn judge_c17b(info: &Info, log: &RunLog, rep: &mut Report) {
                 let run = unanswered_before(&xs, &answers, *tf);
                 judged += 1;
                 rep.count(&format!("c17_timing_judged:{}:{}", role, what));
-                if run.len() as u64 != l {
+                if retriggered {
+                    // the count of transmissions says nothing about the count of expirations here: only the distance
+                    // of the fault from the last transmission is judged
+                    rep.count("c17_nak_runs_with_retriggered_round");
+                    if let Some(last) = run.last() {
+                        if *tf + SLACK < *last + period {
+                            rep.violate("limit-fault-too-early", format!("{} timer={}", key0, what), &info.case, w(&format!("{} declared {:?} {:.3}s after its last {} transmission; the timeout is {} s", role, f.condition, (*tf - last) as f64 / 1e6, what, period / 1_000_000)));
+                        }
+                    }
+                } else if run.len() as u64 != l {
                     rep.violate("limit-fault-wrong-count", format!("{} pdu={} transmissions={}", key0, what, if (run.len() as u64) < l { "fewer" } else { "more" }), &info.case, w(&format!("{} declared {:?} after {} consecutive unanswered {} transmissions; configured limit {}", role, f.condition, run.len(), what, l)));
                 } else {
                     for p in run.windows(2) {
@@ -1074,7 +1105,9 @@ pub fn judge_c17b(info: &Info, log: &RunLog, rep: &mut Report) {
             let my_kind = if ent == t.src { TaskKind::Send } else { TaskKind::Recv };
             let next_start = d.spans(id, my_kind).iter().map(|s| s.start_us).filter(|s| *s > *tf).min().unwrap_or(u64::MAX);
             let after: Vec<_> = emits.iter().filter(|e| e.1 > *tf + SLACK && e.1 < next_start).collect();
-            let end = d.spans(id, if ent == t.src { TaskKind::Send } else { TaskKind::Recv }).iter().filter(|s| s.start_us <= *tf).map(|s| s.end_us).last().flatten();
+            // the task that declared the fault: the earliest one still alive at that instant (a PDU arriving in the
+            // same instant may already have made the daemon start a new one)
+            let end = d.spans(id, if ent == t.src { TaskKind::Send } else { TaskKind::Recv }).iter().filter(|s| s.start_us <= *tf && s.end_us.map(|e| e + SLACK >= *tf).unwrap_or(true)).map(|s| s.end_us).next().flatten();
             let hk = format!("{} action={:?}", key0, action);
             match action {
                 FaultHandlerAction::Abandon => {
@@ -1115,7 +1148,7 @@ pub fn judge_c17b(info: &Info, log: &RunLog, rep: &mut Report) {
                     if hs {
                         rep.violate("handler-not-applied", format!("{} cancel-handshake-started", hk), &info.case, w("handler Ignore: a cancel handshake carrying the fault condition was started"));
                     }
-                    if d.abandons(ent, id).iter().any(|a| a.1 <= *tf + SLACK && a.1 + SLACK >= *tf) {
+                    if d.abandons(ent, id).iter().any(|a| a.1 <= *tf + SLACK && a.1 + SLACK >= *tf && a.2.condition == f.condition) {
                         rep.violate("handler-not-applied", format!("{} abandoned", hk), &info.case, w("handler Ignore: the transaction was abandoned"));
                     }
                 }
@@ -1123,6 +1156,14 @@ pub fn judge_c17b(info: &Info, log: &RunLog, rep: &mut Report) {
                     // an earlier, ignored ACK-limit or inactivity fault left that counter at its limit: the cancel
                     // handshake that starts now is cut short by it at once (abandon). Two faults interacting; not judged.
                     rep.count("c17_cancel_after_ignored_limit(not judged)");
+                }
+                FaultHandlerAction::Cancel if ent == t.dst && f.condition == Condition::InactivityDetected => {
+                    // the receiver's inactivity counter stays at its limit after the fault: the cancel it starts is
+                    // abandoned at its next timer wake-up (at once when that coincides). Judged on the indication.
+                    rep.count("c17_receiver_inactivity_cancel(indication only)");
+                    if !d.finished(ent, id).iter().any(|x| x.1 + SLACK >= *tf && x.1 <= *tf + SLACK && x.2.report.condition == f.condition) {
+                        rep.violate("handler-not-applied", format!("{} no-cancel-indication", hk), &info.case, w("handler Cancel (or none configured): the receiver did not report the transaction cancelled with the fault condition"));
+                    }
                 }
                 FaultHandlerAction::Cancel => {
                     let want_pdu = ent == t.src || t.mode == ack() || k.closure;
@@ -1136,7 +1177,7 @@ pub fn judge_c17b(info: &Info, log: &RunLog, rep: &mut Report) {
                             rep.violate("handler-not-applied", format!("{} no-cancel-handshake", hk), &info.case, w("handler Cancel (or none configured): no EOF / Finished carrying the fault condition followed the fault"));
                         }
                     }
-                    if d.abandons(ent, id).iter().any(|a| a.1 <= *tf + SLACK && a.1 + SLACK >= *tf) {
+                    if d.abandons(ent, id).iter().any(|a| a.1 <= *tf + SLACK && a.1 + SLACK >= *tf && a.2.condition == f.condition) {
                         rep.violate("handler-not-applied", format!("{} abandoned-at-once", hk), &info.case, w("handler Cancel: the transaction was abandoned at the fault instead of cancelled"));
                     }
                 }
@@ -1237,7 +1278,7 @@ pub fn meta_c17b() -> Meta {
     Meta {
         property: "C17",
         level: "exploration",
-        rule: "protocol level: 4-segment file, timer grid (Ti,Ta,Tn,L) in {(10,3,4,3),(4,1,2,2),(20,5,2,5),(6,2,9,1),(3,1,5,3)} x handler for every timer/checksum condition in {unset, Cancel, Ignore, Suspend, Abandon} x 4 NAK procedures x scenarios {reverse link dark from each of its first 4 PDUs, forward link dark from each of its first 7 PDUs, each data segment lost together with all its retransmissions, one segment recovering while its neighbour never does (progress resets the count), a corrupted byte without CRC, every Finished lost} plus unacknowledged+closure variants (complete in thorough, every 3rd by seed in quick); mixed = seeded scenarios of the same kinds with a different handler per condition (NAK limit often ignored, so that a second, different fault follows in the same transaction). Oracle on virtual timestamps; a receiver inactivity limit that was reached must also have been declared under its own condition. distinct_nontrivial = distinct (config, event-order) signatures among runs in which at least one limit fault was timed.".into(),
+        rule: "protocol level: 4-segment file, timer grid (Ti,Ta,Tn,L) in {(10,3,4,3),(4,1,2,2),(20,5,2,5),(6,2,9,1),(3,1,5,3),(1,2,2,2),(2,3,1,2)} x handler for every timer/checksum condition in {unset, Cancel, Ignore, Suspend, Abandon} x 4 NAK procedures x scenarios {reverse link dark from each of its first 4 PDUs, forward link dark from each of its first 7 PDUs, each data segment lost together with all its retransmissions, one segment recovering while its neighbour never does (progress resets the count), a corrupted byte without CRC, every Finished lost} plus unacknowledged+closure variants (complete in thorough, every 3rd by seed in quick); mixed = seeded scenarios of the same kinds with a different handler per condition (NAK limit often ignored, so that a second, different fault follows in the same transaction). Oracle on virtual timestamps; a receiver inactivity limit that was reached must also have been declared under its own condition. distinct_nontrivial = distinct (config, event-order) signatures among runs in which at least one limit fault was timed.".into(),
         exhaustive: false,
         assumptions: vec!["never-earlier is checked with 10 ms slack for the 1 ms/PDU pacing of the simulated link; never-later with an additional 50 ms per period".into(), "with an Ignore handler the implementation re-declares the same fault at every further expiry; only the first declaration of each condition is judged".into()],
         require: vec![("c17_timing_judged:sender:EOF".into(), 30), ("c17_timing_judged:receiver:Finished".into(), 30), ("c17_timing_judged:receiver:NAK".into(), 30), ("c17_timing_judged:receiver:Inactivity".into(), 30), ("c17_handler_judged:Abandon".into(), 20), ("c17_handler_judged:Suspend".into(), 20), ("c17_handler_judged:Ignore".into(), 20), ("c17_handler_judged:Cancel".into(), 40)],
